@@ -91,6 +91,8 @@ struct World {
     work_no: usize,
     stalled: bool,
     dead: Option<String>,
+    /// depfile path -> the text this scenario's commands last wrote there
+    dep_written: BTreeMap<String, String>,
 }
 
 impl World {
@@ -235,11 +237,21 @@ impl World {
                         t
                     }
                 };
-                if let Some(parent) = Path::new(&eff.depfile).parent() {
-                    let _ = std::fs::create_dir_all(parent);
+                // A command that finds its outputs in place and leaves them alone (kind "keep")
+                // does not rewrite the depfile it wrote last time either, if it would be the same.
+                let noop = eff.kind == "keep"
+                    && outcome == "ok"
+                    && self.dep_written.get(&eff.depfile) == Some(&text);
+                if noop {
+                    notes.insert("depfile-kept".into(), json!(eff.depfile));
+                } else {
+                    if let Some(parent) = Path::new(&eff.depfile).parent() {
+                        let _ = std::fs::create_dir_all(parent);
+                    }
+                    let _ = std::fs::write(&eff.depfile, &text);
+                    self.dep_written.insert(eff.depfile.clone(), text);
+                    notes.insert("depfile".into(), json!(eff.depfile));
                 }
-                let _ = std::fs::write(&eff.depfile, text);
-                notes.insert("depfile".into(), json!(eff.depfile));
             }
         }
         if eff.msvc {
@@ -992,8 +1004,13 @@ impl Engine {
         }
         walk(Path::new("."), "", 3, &mut dbat);
         dbat.sort();
+        let dbsize: i64 = dbat
+            .first()
+            .and_then(|p| std::fs::metadata(p).ok())
+            .map(|m| m.len() as i64)
+            .unwrap_or(-1);
         w.ev(json!({"e":"end","exit":exit,"err":err,"errk":errk,"errarg":errarg,"cyc":cyc,
-            "panic":panic,"dead":dead,"summary":summary,"n":n,"warns":warns,"dbat":dbat,"cwd":cwd_rel}));
+            "panic":panic,"dead":dead,"summary":summary,"n":n,"warns":warns,"dbat":dbat,"cwd":cwd_rel,"dbsize":dbsize}));
     }
 
     /// Runs a scenario under every completion order (bounded), calling `sink` per run.
